@@ -245,4 +245,66 @@ theorem length_eq_of_map_text (us ts : List Lex.Tok) (h : us.map (·.text) = ts.
   have := congrArg List.length h
   simpa using this
 
+/-! ### re-reading a printed list whose first token is not at the beginning of a line -/
+
+open ChibiVerif.Lex in
+theorem sepBefore_prev_congr (p p' : Lex.Tok) (t : Lex.Tok) (h : p.text = p'.text) :
+    sepBefore (some p) t = sepBefore (some p') t := by
+  simp [sepBefore, h]
+
+open ChibiVerif.Lex in
+theorem printFrom_prev_congr (p p' : Lex.Tok) (ts : List Lex.Tok) (h : p.text = p'.text) :
+    printFrom (some p) ts = printFrom (some p') ts := by
+  cases ts with
+  | nil => rfl
+  | cons t r => simp only [printFrom, sepBefore_prev_congr p p' t h]
+
+open ChibiVerif.Lex in
+theorem relexed_cons (t : Lex.Tok) (r : List Lex.Tok) :
+    ∃ s, relexed (t :: r) = ⟨kindOf t.text, t.text, true, s⟩ :: tokensOf (false, false) (itemsOf (some t) r) := by
+  unfold relexed
+  simp only [itemsOf, tokensOf]
+  cases hb : t.atBol <;> cases hs : t.hasSpace <;> simp [sepBefore, blankFlags, hb, hs]
+
+open ChibiVerif.Lex in
+/-- the text printed from the re-read list is the text printed from the list with `at_bol` set on its first token -/
+theorem printTokens_relexed (ts : List Lex.Tok) : printTokens (relexed ts) = printTokens (normFirst ts) := by
+  cases ts with
+  | nil => rfl
+  | cons t r =>
+    obtain ⟨s, hs⟩ := relexed_cons t r
+    rw [hs]
+    have hr := printFrom_relex r (some t) (some ⟨kindOf t.text, t.text, true, s⟩) rfl (fun e => by cases e)
+    have hsf : startFlags (some t) = (false, false) := rfl
+    rw [hsf] at hr
+    simp only [printTokens, normFirst, printFrom]
+    rw [hr.1, printFrom_prev_congr { t with atBol := true } t r rfl]
+    simp [sepBefore]
+
+open ChibiVerif.Lex in
+theorem relexed_atBol (ts : List Lex.Tok) : (relexed ts).map (·.atBol) = (normFirst ts).map (·.atBol) := by
+  cases ts with
+  | nil => rfl
+  | cons t r =>
+    obtain ⟨s, hs⟩ := relexed_cons t r
+    rw [hs]
+    have hr := printFrom_relex r (some t) (some ⟨kindOf t.text, t.text, true, s⟩) rfl (fun e => by cases e)
+    have hsf : startFlags (some t) = (false, false) := rfl
+    rw [hsf] at hr
+    simp only [normFirst, List.map_cons, hr.2]
+
+theorem normFirst_text (ts : List Lex.Tok) : (normFirst ts).map (·.text) = ts.map (·.text) := by
+  cases ts <;> rfl
+
+open ChibiVerif.Lex in
+/-- what the blank costs: the printed text is that of the normalised list, possibly after one blank -/
+theorem printTokens_normFirst (ts : List Lex.Tok) :
+    printTokens ts = printTokens (normFirst ts) ∨ printTokens ts = 32 :: printTokens (normFirst ts) := by
+  cases ts with
+  | nil => exact .inl rfl
+  | cons t r =>
+    simp only [printTokens, normFirst, printFrom]
+    rw [printFrom_prev_congr { t with atBol := true } t r rfl]
+    cases hb : t.atBol <;> cases hs : t.hasSpace <;> simp [sepBefore, hb, hs]
+
 end ChibiVerif.C19Bridge
